@@ -37,7 +37,8 @@ def bstep (o : OpD) (β : Bud K) (δn : ℕ → K) : Bud K :=
     `dft d x`    : `DftLimbBudget` (box, forward flags, `ε·na ≤ δn_i`) for every transformed limb;
     `svp d k x`  : `SvpLimbBudget` (boxes, flags of two forward transforms + product, `fB ε μ θ·S_i ≤ δn_i`) per limb;
     `vmp d x m`  : `VmpBudgetM` (budget of the forward transforms of the rows + `VmpDDBudget`);
-    `vmpDD d x m`: `VmpDDBudget` with the CURRENT budgets `β x` of the operand in, `δn` out, flags on `s.dvec x`;
+    `vmpDD d x m`: `d ≠ x` (`vmp_apply_dft_to_dft` is not in-place safe; as `Prog.PreD`), and `VmpDDBudget` with the
+                   CURRENT budgets `β x` of the operand in, `δn` out, flags on `s.dvec x`;
     `idft d x`   : `IdftLimbBudget` for every limb `i < min x.size d.size` that is inverse-transformed: flags of the
                    inverse transform of the concrete limb and `ε·(S2 + β x i) + β x i < 1/2`. -/
 def PreM (M : F64Mod K) (vars : List Var) : OpD → AState → Bud K → CState ℕ → (ℕ → K) → Prop
@@ -47,7 +48,7 @@ def PreM (M : F64Mod K) (vars : List Var) : OpD → AState → Bud K → CState 
       ∀ i, i < x.size → i < d.size → SvpLimbBudget M (limbArr M.N a.env x i) (spOf M sp) (δn i)
   | .vmp d x m, a, _, _, δn => x ∈ vars ∧ (∀ i, i < d.size → 0 ≤ δn i) ∧ ∃ Mv, a.pmat m = some Mv ∧
       VmpBudgetM M (matOf M Mv m.nrows m.ncols) m.nrows m.ncols (vecArr M.N a.env x) x.size d.size δn
-  | .vmpDD d x m, a, β, s, δn => (∀ i, i < d.size → 0 ≤ δn i) ∧ ∃ P Mv, a.dvec x = some P ∧ a.pmat m = some Mv ∧
+  | .vmpDD d x m, a, β, s, δn => d ≠ x ∧ (∀ i, i < d.size → 0 ≤ δn i) ∧ ∃ P Mv, a.dvec x = some P ∧ a.pmat m = some Mv ∧
       VmpDDBudget M (matOf M Mv m.nrows m.ncols) m.nrows m.ncols (fun i => polyArr M.N (P.coef i)) (s.dvec x) x.size
         d.size (β x) δn
   | .idft d x, a, β, s, _ => d ∈ vars ∧ ∃ P, a.dvec x = some P ∧
